@@ -23,7 +23,7 @@ C15_CLAUSES = ('stale', 'wrong', 'missing', 'crash')
 
 NON_DICTS = [5, 'row', None, ['id'], ('id', 1), 2.5]
 POOL_MAX = 4
-MAX_ROWS = 40
+MAX_ROWS = 80
 
 
 class _Sink(object):
@@ -80,7 +80,7 @@ class GridMachine(BaseCheck):
         r = rng.stream(run_seed, 'ops')
         k = rng.stream(run_seed, 'knobs')
         cls = k.choice(['unique-str', 'unique-str', 'duplicates', 'mixed-kinds'])
-        nrows = k.choice([5, 6, 7, 8])
+        nrows = k.choice([5, 6, 7, 8, 8, 14, 30])      # mostly tiny (collisions), sometimes larger
         rows = []
         for j in range(nrows):
             if cls == 'unique-str':
@@ -103,7 +103,7 @@ class GridMachine(BaseCheck):
                     rw['lst'] = True
         case = {'class': cls, 'gver': gver, 'rows': rows,
                 'lookup_every': k.choice([1, 1, 2, 3, 0]),
-                'ninit': k.choice([0, 0, 1, 2, 3, 4])}
+                'ninit': k.choice([0, 0, 1, 2, 3, 4, nrows, 2 * nrows if cls != 'unique-str' else nrows])}
         kinds = ['append', 'insert', 'extend', 'iadd', 'set', 'del', 'delslice', 'pop', 'popi', 'remove',
                  'reverse', 'clear', 'slice', 'slice', 'filter', 'bad', 'extend_self', 'extend_grid', 'edit_id', 'lookup']
         enabled = [x for x in sorted(set(kinds)) if k.random() < 0.75]
